@@ -243,7 +243,7 @@ Proof.
 Qed.
 
 Lemma eager_zty : forall tr zshape nz m lv, forallb eager_level lv = true ->
-  forall i pt e z, zty 0 z -> zty 0 (snd (run false tr zshape nz m lv i pt e z)).
+  forall i pt e z, zty 0 z -> zty 0 (snd (run tr zshape nz m lv i pt e z)).
 Proof.
   intros tr zshape nz m lv. induction lv as [|L lv IH]; intros Hpl i pt e z Hz.
   - cbn [run snd]. unfold leaf_update. destruct Hz as (t & Ht & Hd). rewrite Ht.
@@ -253,7 +253,7 @@ Proof.
     destruct L as [pop s u zu pj sh]. unfold eager_level in HL. cbn [l_pop l_src l_ufmt l_proj] in HL.
     destruct pop; [discriminate|]. destruct pj; [discriminate|].
     assert (Hb : forall c e' z', zty 0 z' ->
-              zty 0 (snd ((fun c0 e0 z0 => run false tr zshape nz m lv (S i) (pt ++ [c0]) e0 z0) c e' z'))).
+              zty 0 (snd ((fun c0 e0 z0 => run tr zshape nz m lv (S i) (pt ++ [c0]) e0 z0) c e' z'))).
     { intros c e' z' Hz'. apply IH; auto. }
     cbn [run]. unfold run_level. cbn [l_pop l_src l_proj l_ufmt l_shape fst snd].
     assert (Hz1 : forall ls, zty 0 (with_lab z ls)) by (intros ls; exact Hz).
@@ -276,7 +276,7 @@ Fixpoint pnest (lv : list level) : bool :=
 
 Lemma pnest_inv : forall tr zshape m lv, pnest lv = true ->
   forall nz i pt e z, nz = (i + n_pop lv)%nat -> labinv i z -> zty (n_pop lv) z ->
-  labinv i (snd (run false tr zshape nz m lv i pt e z)) /\ zty (n_pop lv) (snd (run false tr zshape nz m lv i pt e z)).
+  labinv i (snd (run tr zshape nz m lv i pt e z)) /\ zty (n_pop lv) (snd (run tr zshape nz m lv i pt e z)).
 Proof.
   intros tr zshape m lv. induction lv as [|L lv IH]; intros Hp nz i pt e z Hnz Hz Hzt.
   - cbn [n_pop] in *. split.
@@ -365,7 +365,7 @@ Qed.
 Theorem pnest_spec_gen : forall n tr zshape m lv, pnest lv = true ->
   forall nz i pt e z, length pt = i -> nz = (i + n_pop lv)%nat -> labinv i z -> zty (n_pop lv) z ->
   env_ok e -> nest_pos_ok tr i lv e ->
-  spec false tr n i lv pt e (fst (run false tr zshape nz m lv i pt e z)).
+  spec false tr n i lv pt e (fst (run tr zshape nz m lv i pt e z)).
 Proof.
   intros n tr zshape m lv. induction lv as [|L lv IH]; intros Hp nz i pt e z Lpt Hnz Hz Hzt He Hpo.
   - apply (plain_nest_spec_gen false n tr zshape nz m [] eq_refl i pt e z Lpt Hz).
@@ -377,12 +377,12 @@ Proof.
       destruct L as [pop s u zu pj sh]. cbn [l_pop l_proj l_src] in *. subst pop.
       destruct pj; [discriminate|].
       assert (Hb : forall c e' z', labinv (S i) z' -> zty (n_pop lv) z' ->
-                labinv (S i) (snd (run false tr zshape nz m lv (S i) (pt ++ [c]) e' z'))
-                /\ zty (n_pop lv) (snd (run false tr zshape nz m lv (S i) (pt ++ [c]) e' z'))).
+                labinv (S i) (snd (run tr zshape nz m lv (S i) (pt ++ [c]) e' z'))
+                /\ zty (n_pop lv) (snd (run tr zshape nz m lv (S i) (pt ++ [c]) e' z'))).
       { intros c e' z' Hz' Hzt'. apply pnest_inv; auto. lia. }
       assert (Hbody : forall c e' z', labinv (S i) z' -> zty (n_pop lv) z' ->
                 In (c, e') (ref_elems {| l_pop := true; l_src := s; l_ufmt := u; l_zufmt := zu; l_proj := None; l_shape := sh |} e) ->
-                spec false tr n (S i) lv (pt ++ [c]) e' (fst (run false tr zshape nz m lv (S i) (pt ++ [c]) e' z'))).
+                spec false tr n (S i) lv (pt ++ [c]) e' (fst (run tr zshape nz m lv (S i) (pt ++ [c]) e' z'))).
       { intros c e' z' Hz' Hzt' Hin. destruct (ref_elems_child _ e c e' Hok He Hin) as [He' Hcl].
         apply IH; auto.
         - rewrite app_length. cbn. lia.
